@@ -26,7 +26,7 @@
 (*   (F-C07b).                                                             *)
 (***************************************************************************)
 EXTENDS Integers, FiniteSets, Sequences, TLC, Json
-CONSTANTS Ctl, MaxIdx, MaxGen, MaxOps, Variant
+CONSTANTS Ctl, MaxIdx, MaxGen, MaxOps, Variant, StoreFaults
 
 Fixed == Variant = "fixed"
 NULL == [own |-> 0, gen |-> 0, ver |-> 0, noc |-> 0]
@@ -41,16 +41,19 @@ VARIABLES fabrics,   \* [Idx -> [own, gen, ver, noc]]   own = 0: absent; ver = l
           snap,      \* history: [fabrics, kv] when the fail-safe was armed
           stuck,     \* the fail-safe could not expire (the node stops serving)
           acked,     \* history: what peers were told is committed: [Idx -> [own, gen, ver]]
+          failNext,  \* the next mutating operation of the key-value store returns an error and changes nothing (StoreFaults)
+          uncommitted, \* history: the fail-safe was disarmed by a CommissioningComplete whose store write failed
           h, nops
-vars == <<fabrics, kv, fs, sess, resum, resumKv, nextGen, snap, stuck, acked, h, nops>>
-view == <<fabrics, kv, fs, sess, resum, resumKv, nextGen, snap, stuck, acked>>
+vars == <<fabrics, kv, fs, sess, resum, resumKv, nextGen, snap, stuck, acked, failNext, uncommitted, h, nops>>
+view == <<fabrics, kv, fs, sess, resum, resumKv, nextGen, snap, stuck, acked, failNext, uncommitted>>
 
 Idle == [armed |-> FALSE, c |-> 0, mode |-> "none", fab |-> 0, flags |-> {}]
 Init == /\ fabrics = [i \in Idx |-> NULL] /\ kv = [i \in Idx |-> NULL] /\ fs = Idle
         /\ sess = {} /\ resum = {} /\ resumKv = {} /\ nextGen = 1
         /\ snap = [fabrics |-> fabrics, kv |-> kv] /\ stuck = FALSE /\ acked = [i \in Idx |-> NULL]
-        /\ h = <<>> /\ nops = 0
+        /\ failNext = FALSE /\ uncommitted = FALSE /\ h = <<>> /\ nops = 0
 Log(op) == h' = Append(h, op) /\ nops' = nops + 1
+NoStore == UNCHANGED <<failNext, uncommitted>>       \* the action does not touch the store
 
 Present(i) == fabrics[i].own # 0
 S(c, m) == {s \in sess : s.c = c /\ s.mode = m /\ ~s.expired}
@@ -61,14 +64,14 @@ RemovePase(t) == {s \in t : s.mode # "pase"}
 SameCtx(s) == fs.armed /\ fs.fab = s.fab /\ fs.mode = s.mode /\ (s.mode = "pase" => fs.c = s.c)
 
 \* PASE established (the harness opens a window when needed): auto-arms the fail-safe
-Pase(c) == /\ ~stuck /\ sess' = Replace(c, "pase", [c |-> c, mode |-> "pase", fab |-> 0, gen |-> 0, expired |-> FALSE, n |-> 1])
+Pase(c) == /\ NoStore /\ ~stuck /\ sess' = Replace(c, "pase", [c |-> c, mode |-> "pase", fab |-> 0, gen |-> 0, expired |-> FALSE, n |-> 1])
            /\ IF ~fs.armed THEN /\ fs' = [armed |-> TRUE, c |-> c, mode |-> "pase", fab |-> 0, flags |-> {}]
                                 /\ snap' = [fabrics |-> fabrics, kv |-> kv]
               ELSE UNCHANGED <<fs, snap>>
            /\ Log([op |-> "Pase", c |-> c])
            /\ UNCHANGED <<fabrics, kv, resum, resumKv, nextGen, stuck, acked>>
 
-Arm(c, m) == /\ ~stuck /\ Has(c, m) /\ Log([op |-> "Cmd", c |-> c, via |-> m, cmd |-> "arm"])
+Arm(c, m) == /\ NoStore /\ ~stuck /\ Has(c, m) /\ Log([op |-> "Cmd", c |-> c, via |-> m, cmd |-> "arm"])
              /\ LET s == The(c, m) IN
                 IF ~fs.armed THEN /\ fs' = [armed |-> TRUE, c |-> c, mode |-> m, fab |-> s.fab, flags |-> {}]
                                   /\ snap' = [fabrics |-> fabrics, kv |-> kv]
@@ -76,26 +79,26 @@ Arm(c, m) == /\ ~stuck /\ Has(c, m) /\ Log([op |-> "Cmd", c |-> c, via |-> m, cm
              /\ UNCHANGED <<fabrics, kv, sess, resum, resumKv, nextGen, stuck, acked>>
 
 Check(s, present, absent) == SameCtx(s) /\ present \subseteq fs.flags /\ fs.flags \cap absent = {}
-Csr(c, m) == /\ ~stuck /\ Has(c, m) /\ Log([op |-> "Cmd", c |-> c, via |-> m, cmd |-> "csr"])
+Csr(c, m) == /\ NoStore /\ ~stuck /\ Has(c, m) /\ Log([op |-> "Cmd", c |-> c, via |-> m, cmd |-> "csr"])
              /\ IF Check(The(c, m), {}, {"csr", "csru"}) THEN fs' = [fs EXCEPT !.flags = @ \cup {"csr"}] ELSE UNCHANGED fs
              /\ UNCHANGED <<fabrics, kv, sess, resum, resumKv, nextGen, snap, stuck, acked>>
 \* CSRRequest(isForUpdateNOC) and UpdateNOC: only over the operational session whose fabric the fail-safe is armed for;
 \* the new certificate replaces the old one in memory, the persisted copy follows at CommissioningComplete
-Csru(c) == /\ ~stuck /\ Has(c, "case") /\ Log([op |-> "Cmd", c |-> c, via |-> "case", cmd |-> "csru"])
+Csru(c) == /\ NoStore /\ ~stuck /\ Has(c, "case") /\ Log([op |-> "Cmd", c |-> c, via |-> "case", cmd |-> "csru"])
            /\ IF Check(The(c, "case"), {}, {"csr", "csru"}) THEN fs' = [fs EXCEPT !.flags = @ \cup {"csru"}] ELSE UNCHANGED fs
            /\ UNCHANGED <<fabrics, kv, sess, resum, resumKv, nextGen, snap, stuck, acked>>
-Unoc(c) == /\ ~stuck /\ Has(c, "case") /\ Log([op |-> "Cmd", c |-> c, via |-> "case", cmd |-> "unoc"])
+Unoc(c) == /\ NoStore /\ ~stuck /\ Has(c, "case") /\ Log([op |-> "Cmd", c |-> c, via |-> "case", cmd |-> "unoc"])
            /\ LET s == The(c, "case") IN
               IF Check(s, {"csru"}, {"csr", "root", "noc", "unoc"}) /\ Present(s.fab) /\ fabrics[s.fab].gen = s.gen /\ fabrics[s.fab].noc < 2
               THEN fabrics' = [fabrics EXCEPT ![s.fab].noc = @ + 1] /\ fs' = [fs EXCEPT !.flags = @ \cup {"unoc"}]
               ELSE UNCHANGED <<fabrics, fs>>
            /\ UNCHANGED <<kv, sess, resum, resumKv, nextGen, snap, stuck, acked>>
-AddRoot(c, m) == /\ ~stuck /\ Has(c, m) /\ Log([op |-> "Cmd", c |-> c, via |-> m, cmd |-> "root"])
+AddRoot(c, m) == /\ NoStore /\ ~stuck /\ Has(c, m) /\ Log([op |-> "Cmd", c |-> c, via |-> m, cmd |-> "root"])
                  /\ IF Check(The(c, m), {}, {"root"}) THEN fs' = [fs EXCEPT !.flags = @ \cup {"root"}] ELSE UNCHANGED fs
                  /\ UNCHANGED <<fabrics, kv, sess, resum, resumKv, nextGen, snap, stuck, acked>>
 MaxUsed == IF \E i \in Idx : Present(i) THEN CHOOSE i \in Idx : Present(i) /\ \A j \in Idx : Present(j) => j <= i ELSE 0
 AddNoc(c, m) ==
-  /\ ~stuck /\ Has(c, m) /\ Log([op |-> "Cmd", c |-> c, via |-> m, cmd |-> "noc"])
+  /\ NoStore /\ ~stuck /\ Has(c, m) /\ Log([op |-> "Cmd", c |-> c, via |-> m, cmd |-> "noc"])
   /\ LET s == The(c, m) IN
      IF Check(s, {"root", "csr"}, {"noc", "unoc"}) /\ MaxUsed < MaxIdx /\ nextGen <= MaxGen /\ ~(\E i \in Idx : fabrics[i].own = c)
      THEN LET n == MaxUsed + 1 IN
@@ -107,50 +110,59 @@ AddNoc(c, m) ==
   /\ UNCHANGED <<kv, resum, resumKv, snap, stuck, acked>>
 
 \* the administrator opens (or re-uses) its operational session: needs a fabric of its root on the node
-Case(c) == /\ ~stuck /\ \E f \in Idx : fabrics[f].own = c
+Case(c) == /\ NoStore /\ ~stuck /\ \E f \in Idx : fabrics[f].own = c
            /\ LET f == CHOOSE f \in Idx : fabrics[f].own = c IN
               /\ sess' = Replace(c, "case", [c |-> c, mode |-> "case", fab |-> f, gen |-> fabrics[f].gen, expired |-> FALSE, n |-> 1])
               /\ resum' = {r \in resum : r.c # c} \cup {[c |-> c, fab |-> f, gen |-> fabrics[f].gen]}
            /\ Log([op |-> "Read", c |-> c, fresh |-> TRUE])
            /\ UNCHANGED <<fabrics, kv, fs, resumKv, nextGen, snap, stuck, acked>>
 \* one more operational session of the same administrator, next to the one it holds
-Case2(c) == /\ ~stuck /\ Has(c, "case") /\ \E f \in Idx : fabrics[f].own = c
+Case2(c) == /\ NoStore /\ ~stuck /\ Has(c, "case") /\ \E f \in Idx : fabrics[f].own = c
             /\ LET f == CHOOSE f \in Idx : fabrics[f].own = c IN
                sess' = Replace(c, "case", [c |-> c, mode |-> "case", fab |-> f, gen |-> fabrics[f].gen, expired |-> FALSE, n |-> 2])
             /\ Log([op |-> "Case", c |-> c])
             /\ UNCHANGED <<fabrics, kv, fs, resum, resumKv, nextGen, snap, stuck, acked>>
 \* a request over the operational session the administrator already holds
-Use(c) == /\ ~stuck /\ Has(c, "case") /\ Log([op |-> "Read", c |-> c, fresh |-> FALSE])
+Use(c) == /\ NoStore /\ ~stuck /\ Has(c, "case") /\ Log([op |-> "Read", c |-> c, fresh |-> FALSE])
           /\ UNCHANGED <<fabrics, kv, fs, sess, resum, resumKv, nextGen, snap, stuck, acked>>
 
 \* UpdateFabricLabel (stands for every write to the fabric's own data: label, ACL, groups)
 Label(c) == /\ ~stuck /\ Has(c, "case") /\ Log([op |-> "Cmd", c |-> c, via |-> "case", cmd |-> "label"])
             /\ LET s == The(c, "case") IN
                IF Present(s.fab) /\ fabrics[s.fab].gen = s.gen /\ fabrics[s.fab].ver < 2
-               THEN /\ fabrics' = [fabrics EXCEPT ![s.fab].ver = @ + 1]
-                    /\ kv' = IF (fs.armed /\ fs.fab = s.fab) \/ ~Fixed THEN kv ELSE [kv EXCEPT ![s.fab] = fabrics'[s.fab]]
-                    /\ acked' = IF fs.armed /\ fs.fab = s.fab THEN acked ELSE [acked EXCEPT ![s.fab] = fabrics'[s.fab]]
-               ELSE UNCHANGED <<fabrics, kv, acked>>
-            /\ UNCHANGED <<fs, sess, resum, resumKv, nextGen, snap, stuck>>
+               THEN LET writes == ~((fs.armed /\ fs.fab = s.fab) \/ ~Fixed) IN          \* persist.store(fabric) after the change in memory
+                    /\ fabrics' = [fabrics EXCEPT ![s.fab].ver = @ + 1]
+                    /\ kv' = IF writes /\ ~failNext THEN [kv EXCEPT ![s.fab] = fabrics'[s.fab]] ELSE kv
+                    \* (a failed write answers Failure: nothing was confirmed)
+                    /\ acked' = IF (fs.armed /\ fs.fab = s.fab) \/ (writes /\ failNext) THEN acked ELSE [acked EXCEPT ![s.fab] = fabrics'[s.fab]]
+                    /\ failNext' = IF writes THEN FALSE ELSE failNext
+               ELSE UNCHANGED <<fabrics, kv, acked, failNext>>
+            /\ UNCHANGED <<fs, sess, resum, resumKv, nextGen, snap, stuck, uncommitted>>
 
 Complete(c) == /\ ~stuck /\ Has(c, "case") /\ Log([op |-> "Cmd", c |-> c, via |-> "case", cmd |-> "complete"])
                /\ LET s == The(c, "case") IN
                   IF fs.armed /\ fs.fab = s.fab /\ Present(s.fab) /\ fabrics[s.fab].gen = s.gen
-                  THEN /\ fs' = Idle /\ sess' = RemovePase(sess)
-                       /\ kv' = [kv EXCEPT ![s.fab] = fabrics[s.fab]] /\ acked' = [acked EXCEPT ![s.fab] = fabrics[s.fab]]
-                  ELSE UNCHANGED <<fs, sess, kv, acked>>
+                  THEN /\ fs' = Idle /\ sess' = RemovePase(sess)             \* failsafe.disarm, close window, remove_pase - and only then:
+                       /\ IF failNext                                         \* persist.store(fabric)? fails: the answer is Failure,
+                          THEN UNCHANGED <<kv, acked>> /\ uncommitted' = TRUE  \* the fail-safe is idle, nothing is stored (open finding F-C08e)
+                          ELSE kv' = [kv EXCEPT ![s.fab] = fabrics[s.fab]] /\ acked' = [acked EXCEPT ![s.fab] = fabrics[s.fab]] /\ UNCHANGED uncommitted
+                       /\ failNext' = FALSE
+                  ELSE UNCHANGED <<fs, sess, kv, acked, failNext, uncommitted>>
                /\ UNCHANGED <<fabrics, resum, resumKv, nextGen, snap, stuck>>
 
 RemoveFabric(c, f) ==
   /\ ~stuck /\ Has(c, "case") /\ Log([op |-> "Cmd", c |-> c, via |-> "case", cmd |-> "remove", idx |-> f])
   /\ LET s == The(c, "case") IN
      IF Present(s.fab) /\ fabrics[s.fab].gen = s.gen /\ Present(f)
-     THEN /\ fabrics' = [fabrics EXCEPT ![f] = NULL] /\ kv' = [kv EXCEPT ![f] = NULL] /\ acked' = [acked EXCEPT ![f] = NULL]
+     THEN /\ fabrics' = [fabrics EXCEPT ![f] = NULL]
+          \* persist.remove(idx)? after the removal in memory: a failing store answers Failure and keeps the stored copy
+          /\ IF failNext THEN UNCHANGED <<kv, acked>> ELSE kv' = [kv EXCEPT ![f] = NULL] /\ acked' = [acked EXCEPT ![f] = NULL]
+          /\ failNext' = FALSE
           /\ sess' = {IF x = s THEN [x EXCEPT !.expired = TRUE] ELSE x : x \in {y \in sess : y.fab # f \/ y = s}}
           /\ resum' = {r \in resum : r.fab # f}
           /\ fs' = IF Fixed /\ fs.armed /\ fs.fab = f THEN Idle ELSE fs
-     ELSE UNCHANGED <<fabrics, kv, acked, sess, resum, fs>>
-  /\ UNCHANGED <<resumKv, nextGen, snap, stuck>>
+     ELSE UNCHANGED <<fabrics, kv, acked, sess, resum, fs, failNext>>
+  /\ UNCHANGED <<resumKv, nextGen, snap, stuck, uncommitted>>
 
 \* FailSafe::expire
 Rollback ==
@@ -158,39 +170,48 @@ Rollback ==
   THEN /\ stuck' = TRUE /\ UNCHANGED <<fabrics, fs, sess, resum>>          \* fabrics.remove(idx)? -> Err: stays armed for ever
   ELSE /\ fabrics' = IF fs.fab = 0 \/ ~Present(fs.fab) THEN fabrics ELSE [fabrics EXCEPT ![fs.fab] = kv[fs.fab]]
        /\ fs' = Idle /\ UNCHANGED stuck
-       /\ LET gone == fs.fab # 0 /\ Present(fs.fab) /\ kv[fs.fab].gen # fabrics[fs.fab].gen IN
+       \* (expire(): fabrics.remove(idx); fabrics.add_load(idx, kv); the sessions go with the fabric when nothing was loaded)
+       /\ LET gone == fs.fab # 0 /\ Present(fs.fab) /\ kv[fs.fab].own = 0 IN
           /\ sess' = IF Fixed /\ gone THEN {s \in RemovePase(sess) : s.fab # fs.fab} ELSE RemovePase(sess)
           /\ resum' = IF Fixed /\ gone THEN {r \in resum : r.fab # fs.fab} ELSE resum
-ExpireTimer == /\ ~stuck /\ fs.armed /\ Rollback /\ Log([op |-> "Wait", ms |-> 61000])
+ExpireTimer == /\ NoStore /\ ~stuck /\ fs.armed /\ Rollback /\ Log([op |-> "Wait", ms |-> 61000])
                /\ UNCHANGED <<kv, resumKv, nextGen, snap, acked>>
-ArmZero(c, m) == /\ ~stuck /\ Has(c, m) /\ Log([op |-> "Cmd", c |-> c, via |-> m, cmd |-> "arm0"])
+ArmZero(c, m) == /\ NoStore /\ ~stuck /\ Has(c, m) /\ Log([op |-> "Cmd", c |-> c, via |-> m, cmd |-> "arm0"])
                  /\ IF fs.armed /\ (SameCtx(The(c, m)) \/ ~Fixed) THEN Rollback ELSE UNCHANGED <<fabrics, fs, sess, resum, stuck>>
                  /\ UNCHANGED <<kv, resumKv, nextGen, snap, acked>>
 
 \* AdministratorCommissioning::RevokeCommissioning from any administrator: the fail-safe is forced to expire
-Revoke(c) == /\ ~stuck /\ Has(c, "case") /\ Log([op |-> "Cmd", c |-> c, via |-> "case", cmd |-> "revoke"])
+Revoke(c) == /\ NoStore /\ ~stuck /\ Has(c, "case") /\ Log([op |-> "Cmd", c |-> c, via |-> "case", cmd |-> "revoke"])
              /\ IF fs.armed THEN Rollback ELSE UNCHANGED <<fabrics, fs, sess, resum, stuck>>
              /\ UNCHANGED <<kv, resumKv, nextGen, snap, acked>>
 
 \* the lazy writer of the resumption cache, and a power cut + start-up from the store
-PersistResum == /\ resumKv # resum /\ resumKv' = resum /\ Log([op |-> "Wait", ms |-> 2500])
-                /\ UNCHANGED <<fabrics, kv, fs, sess, resum, nextGen, snap, stuck, acked>>
-Restart == /\ fabrics' = kv /\ fs' = Idle /\ sess' = {} /\ stuck' = FALSE
+PersistResum == /\ resumKv # resum /\ resumKv' = (IF failNext THEN resumKv ELSE resum) /\ failNext' = FALSE
+                /\ Log([op |-> "Wait", ms |-> 2500])
+                /\ UNCHANGED <<fabrics, kv, fs, sess, resum, nextGen, snap, stuck, acked, uncommitted>>
+Restart == /\ ~failNext /\ uncommitted' = FALSE /\ UNCHANGED failNext
+           /\ fabrics' = kv /\ fs' = Idle /\ sess' = {} /\ stuck' = FALSE
            /\ resum' = IF Fixed THEN {r \in resumKv : kv[r.fab].own # 0 /\ kv[r.fab].gen = r.gen} ELSE resumKv
            /\ Log([op |-> "Restart"])
            /\ UNCHANGED <<kv, resumKv, nextGen, snap, acked>>
 
 \* Matter::factory_reset, then a power cycle: nothing of any fabric is left, in memory or in the store
-FactoryReset == /\ fabrics' = [i \in Idx |-> NULL] /\ kv' = [i \in Idx |-> NULL] /\ acked' = [i \in Idx |-> NULL]
+FactoryReset == /\ ~failNext /\ uncommitted' = FALSE /\ UNCHANGED failNext
+                /\ fabrics' = [i \in Idx |-> NULL] /\ kv' = [i \in Idx |-> NULL] /\ acked' = [i \in Idx |-> NULL]
                 /\ fs' = Idle /\ sess' = {} /\ resum' = {} /\ resumKv' = {} /\ stuck' = FALSE
                 /\ Log([op |-> "FactoryReset"])
                 /\ UNCHANGED <<nextGen, snap>>
+
+\* fault injection: the next mutating operation of the store fails
+KvFail == /\ ~failNext /\ ~stuck /\ failNext' = TRUE /\ Log([op |-> "KvFail", k |-> 0])
+          /\ UNCHANGED <<fabrics, kv, fs, sess, resum, resumKv, nextGen, snap, stuck, acked, uncommitted>>
 
 Next == /\ nops < MaxOps
         /\ \/ \E c \in Ctl : Pase(c) \/ Case(c) \/ Case2(c) \/ Use(c) \/ Label(c) \/ Complete(c) \/ Csru(c) \/ Unoc(c) \/ Revoke(c)
            \/ \E c \in Ctl, m \in {"pase", "case"} : Arm(c, m) \/ ArmZero(c, m) \/ Csr(c, m) \/ AddRoot(c, m) \/ AddNoc(c, m)
            \/ \E c \in Ctl, f \in Idx : RemoveFabric(c, f)
            \/ ExpireTimer \/ PersistResum \/ Restart \/ FactoryReset
+           \/ (StoreFaults /\ KvFail)
 Spec == Init /\ [][Next]_vars
 
 (* ---- the properties on the model ---- *)
@@ -200,6 +221,10 @@ NoOldResumptionOnNewFabric == \A r \in resum : Present(r.fab) => fabrics[r.fab].
 \* C08 NeverStuck + RollbackRestores: once the fail-safe is idle again without a commit, the fabrics are what they were
 NeverStuck == ~stuck
 RollbackRestores == (~fs.armed) => \A i \in Idx : fabrics[i] = kv[i]
+\* ... with store failures: a failed write leaves memory ahead of the store (the answer was Failure); what must still hold is
+\* that the fail-safe never goes idle with uncommitted credential changes in memory - CommittedOrUndone is violated by the
+\* code as it is (open finding F-C08e); the other invariants hold under store failures
+CommittedOrUndone == ~uncommitted
 \* C11 CommittedSurvives: what a peer was told is committed is what the store holds
 CommittedSurvives == \A i \in Idx : (acked[i].own # 0 /\ kv[i].gen = acked[i].gen) => kv[i].ver = acked[i].ver
 
